@@ -496,13 +496,16 @@ class MetadorGroup(MetadorNode):
             # because metadata lives in parallel group, need to copy separately:
             src_meta: str = src_node.meta._base_dir
             dst_meta: str = dst_node.meta._base_dir  # node will not exist yet
-            self.__wrapped__.copy(src_meta, dst_meta, **copy_kwargs)  # RAW
+            if src_meta in self.__wrapped__:  # RAW (dataset might have no metadata)
+                self.__wrapped__.copy(src_meta, dst_meta, **copy_kwargs)  # RAW
 
-            # register in TOC:
-            dst_meta_node = self.__wrapped__[dst_meta]
-            assert isinstance(dst_meta_node, H5GroupLike)
-            missing = self._self_container.metador._links.find_missing(dst_meta_node)
-            self._self_container.metador._links.repair_missing(missing)
+                # register in TOC:
+                dst_meta_node = self.__wrapped__[dst_meta]
+                assert isinstance(dst_meta_node, H5GroupLike)
+                missing = self._self_container.metador._links.find_missing(
+                    dst_meta_node
+                )
+                self._self_container.metador._links.repair_missing(missing)
 
         if not src_is_dataset:
             if without_meta:
